@@ -50,7 +50,7 @@ func (a *c15Responder) Receive(ctx *ReceiveContext) {
 
 var c15ScopeFuncs = []string{".(*PID).Ask", ".Ask", ".(*PID).SendSync", ".(*ReceiveContext).Response", ".(*ReceiveContext).build",
 	".getResponseChannel", ".putResponseChannel", ".drainAnyChannel", ".getContext", ".recycleContext", ".toReceiveContext",
-	".(*PID).doReceive", ".(*PID).runTurn", ".(*PID).finishOrReclaim", ".(*UnboundedMailbox)"}
+	".(*PID).doReceive", ".(*PID).runTurn", ".(*PID).finishOrReclaim", ".(*UnboundedMailbox)", ".(*dispatchState)", ".(*readyQueue).push"}
 
 func c15Scope(file, fn string) bool {
 	if !strings.Contains(file, "/actor/") {
@@ -124,7 +124,18 @@ func c15Run(t *testing.T, sc c15Scenario, c *vsched.Chooser) (out vsched.Outcome
 			mu.Unlock()
 		}
 		ask := func(who string, to *PID, id int) { askT(who, to, id, time.Second) }
-		if sc.mode == "stale" {
+		wantResults := 2
+		if sc.mode == "tells" {
+			// ask1 goes to R while another client keeps R busy with ordinary messages: R answers,
+			// dequeues the next message (which lets the mailbox reset ask1's context) and may do all
+			// that before the asking goroutine has returned from the enqueue.
+			wantResults = 1
+			s.Go("client1", func() { ask("ask1", r, 1) })
+			s.Go("client2", func() {
+				_ = sys.NoSender().Tell(ctx, r, &c15Req{id: 90})
+				_ = sys.NoSender().Tell(ctx, r, &c15Req{id: 91})
+			})
+		} else if sc.mode == "stale" {
 			// ask1 goes to the silent actor Q and will time out; the other client then makes Q dequeue
 			// another message (which lets the mailbox recycle ask1's context) and asks R with a long
 			// timeout: R's in-time reply must reach it even though ask1's timeout path runs late.
@@ -203,8 +214,8 @@ func c15Run(t *testing.T, sc c15Scenario, c *vsched.Chooser) (out vsched.Outcome
 			}
 		}
 		rActor.mu.Unlock()
-		if len(res) != 2 && out.Invalid == "" {
-			v = append(v, vsched.Fail("ask-never-returned/"+sc.api, "only %d of 2 asks returned: %s; threads: %s", len(res), c15Show(res), s.Describe()))
+		if len(res) != wantResults && out.Invalid == "" {
+			v = append(v, vsched.Fail("ask-never-returned/"+sc.api, "only %d of the asks returned: %s; threads: %s", len(res), c15Show(res), s.Describe()))
 		}
 		out.Violations = v
 		out.Obs = b.String() + fmt.Sprintf("fired=%v", fired)
@@ -234,7 +245,7 @@ func TestVerifC15(t *testing.T) {
 	vsched.Rep().Assumption("sequentially consistent interleavings at shimmed atomics and at channel statements of the Ask/Response path; timers fire only as explicit events or when nothing else can run; contextPoolSize=2 (overridden) so response channels and contexts are reused immediately")
 	var all []vsched.Scenario
 	for _, api := range []string{"pid", "pkg", "sendsync"} {
-		for _, mode := range []string{"seq", "par", "stale"} {
+		for _, mode := range []string{"seq", "par", "stale", "tells"} {
 			sc := c15Scenario{name: api + "/" + mode, api: api, mode: mode, bound: vsched.Pick(2, 3)}
 			all = append(all, vsched.Scenario{
 				Cfg: vsched.Config{Scenario: sc.name, Bound: sc.bound, Params: map[string]any{"api": api, "mode": mode}},
